@@ -283,7 +283,16 @@ class TableWorld(World):
         return super().arr_method(eng, st, recv, n, name, args, kwargs, node)
 
     def compare_objects(self, eng, st, op, a, b):
-        """(a != b) on scipy matrices: a matrix whose nnz is the number of differing cells"""
+        """(a != b) on scipy matrices: a matrix whose nnz is the number of differing cells;
+        t == u on tables: Table.__eq__"""
+        if isinstance(op, (ast.Eq, ast.NotEq)) and a.kind == 'ref' and b.kind == 'ref':
+            na, nb = st.node(a), st.node(b)
+            if isinstance(na, Obj) and na.cls == 'Table':
+                dunder = '__eq__' if isinstance(op, ast.Eq) else '__ne__'
+                cnode = [m for m in self.module_classes['Table'].body
+                         if isinstance(m, ast.FunctionDef) and m.name == dunder][0]
+                fv = VFn('def', rel=self.rel, qualname='Table.' + dunder, node=cnode, self_val=a)
+                return eng.call_def(st, fv, [b], {}, ast.Compare(left=ast.Name(id='a'), ops=[op], comparators=[], lineno=0))
         if isinstance(op, ast.NotEq) and a.kind == 'ref' and b.kind == 'ref':
             na, nb = st.node(a), st.node(b)
             if isinstance(na, Obj) and isinstance(nb, Obj) and na.cls == 'SP' and nb.cls == 'SP':
@@ -532,7 +541,7 @@ contract(F, 'Table.length', inline_at_calls=True, tier='P', props=['C05'],
     raises={'UnknownAxisError': ["not (%s)" % AX]}, modifies=[])
 
 contract(F, 'Table.nnz', tier='A', props=['C05', 'C16', 'C19'],
-    types={'self': 'Obj:Table'},
+    types={'self': 'Obj:Table'}, returns='Int',
     ensures=["result == nnz_true(self._data)",            # the number of non-zero cells, whatever was stored
              "samecells(self._data, old(self._data.cell)) and not self._data.haszeros"],
     modifies=['self._data.*'])
@@ -549,7 +558,7 @@ contract(F, 'Table.sum', tier='A', props=['C19', 'C05'],
     modifies=[])
 
 contract(F, 'Table._data_equality', tier='A', props=['C16'],
-    types={'self': 'Obj:Table', 'other': 'SP'},
+    types={'self': 'Obj:Table', 'other': 'SP'}, returns='Bool',
     requires=["self._data.fmt == 'csr' or self._data.fmt == 'csc'"],
     ensures=[
         # equal iff same shape, dtype and not a single differing cell - stored zeros and layout play no role
@@ -732,3 +741,67 @@ contract(F, 'Table.head', tier='A', props=['C08'],
             # imprecision of the model: that the table's own leading ids are known to filter is not expressible here
             'KeyError': ["n > 0 and m > 0"]},
     modifies=[])
+
+
+# ---------------------------------------------------------------------------
+# equality (C16), emptiness / density (C05, C19), transpose (C06)
+# ---------------------------------------------------------------------------
+ASSUMED['np.array_equal'] = ('numpy.array_equal(a, b): same length and equal elements for two arrays / tuples; '
+                             'None equals only None')
+ASSUMED['sp.transpose'] = 'scipy: m.transpose(copy=True) is a fresh matrix with cells swapped (cell(j, i) = m.cell(i, j))'
+
+
+def _tw_builtin_eq(self, eng, st, name, args, kwargs, node, starv=None, dstar=None):
+    if name in ('np.array_equal', 'numpy.array_equal'):
+        self.used.add('np.array_equal')
+        return [Result(st, VBool(eng.equal(st, args[0], args[1])))]
+    return _orig_call_builtin_eq(self, eng, st, name, args, kwargs, node, starv, dstar)
+
+
+_orig_call_builtin_eq = TableWorld.call_builtin
+TableWorld.call_builtin = _tw_builtin_eq
+
+
+def _tw_isinstance(self, eng, st, v, cls, node):
+    if cls.kind == 'cls' and cls.name == 'Table':
+        return [Result(st, VBool(v.kind == 'ref' and isinstance(st.node(v), Obj) and st.node(v).cls == 'Table'))]
+    return None
+
+
+TableWorld.isinstance_hook = _tw_isinstance
+
+SAME_CONTENT = ("self.type == other.type and same_seq(self._observation_ids, other._observation_ids) "
+                "and same_seq(self._sample_ids, other._sample_ids) "
+                "and same_seq(self._observation_metadata, other._observation_metadata) "
+                "and same_seq(self._sample_metadata, other._sample_metadata) "
+                "and self._data.shape == other._data.shape and self._data.dtype == other._data.dtype "
+                "and ndiff(self._data, other._data) == 0")
+EQ_REQ = ["self._data.fmt == 'csr' or self._data.fmt == 'csc'"]
+
+contract(F, 'Table.__eq__', tier='A', props=['C16'],
+    types={'self': 'Obj:Table', 'other': 'Obj:Table'}, requires=EQ_REQ, returns='Bool',
+    # equal iff type, ids in order, metadata and every cell agree: nothing about layout, index order, stored zeros
+    ensures=["result == (%s)" % SAME_CONTENT,
+             "samecells(self._data, old(self._data.cell)) and samecells(other._data, old(other._data.cell))"],
+    modifies=['self._data', 'self._data.*'])
+
+contract(F, 'Table.__ne__', tier='A', props=['C16'],
+    types={'self': 'Obj:Table', 'other': 'Obj:Table'}, requires=EQ_REQ,
+    ensures=["result == (not (%s))" % SAME_CONTENT],
+    modifies=['self._data', 'self._data.*'])
+
+contract(F, 'Table.descriptive_equality', tier='A', props=['C16'],
+    types={'self': 'Obj:Table', 'other': 'Obj:Table'}, requires=EQ_REQ,
+    ensures=["(result == 'Tables appear equal') == (%s)" % SAME_CONTENT],
+    modifies=['self._data', 'self._data.*'])
+
+contract(F, 'Table.is_empty', tier='P', props=['C05'],
+    types={'self': 'Obj:Table'}, returns='Bool',
+    ensures=["result == (len(self._sample_ids) == 0 or len(self._observation_ids) == 0)"], modifies=[])
+
+contract(F, 'Table.get_table_density', tier='A', props=['C19', 'C05'],
+    types={'self': 'Obj:Table'},
+    ensures=["implies(len(self._sample_ids) > 0 and len(self._observation_ids) > 0, "
+             "        result * (len(self._sample_ids) * len(self._observation_ids)) == nnz_true(self._data))",
+             "implies(len(self._sample_ids) == 0 or len(self._observation_ids) == 0, result == 0)"],
+    modifies=['self._data.*'])
